@@ -1,3 +1,13 @@
 import PytezosModel.Props.C12
+#print axioms C12.source_shape
+#print axioms C12.cfg_unit
+#print axioms C12.ofPy_toPy_partial
+#print axioms C12.ofPy_toPy_key_partial
+#print axioms C12.toPy_injective_partial
+#print axioms C12.field_names_unique
+#print axioms C12.layout_stable
+#print axioms C12.encode_decode_inverse
 #print axioms C12.option_option_counterexample
 #print axioms C12.name_collision_counterexample
+#print axioms C12.name_collision_or_counterexample
+#print axioms C12.unhashable_unit_counterexample
